@@ -997,7 +997,7 @@ pub fn run_c10(thorough: bool, seed: u64, shards: usize) -> (Report, String) {
     let n_cli: u64 = if thorough { 4_000 } else { 480 };
     match crate::cli::build_binary() {
         Ok(bin) => {
-            let work = std::path::Path::new(crate::report::VERIF).join("work").join(format!("c10-{}", std::process::id()));
+            let work = crate::report::out_dir().join("work").join(format!("c10-{}", std::process::id()));
             let _ = std::fs::create_dir_all(&work);
             let sub = crate::report::sharded(shards, |shard| {
                 let mut r = Report::new();
